@@ -1,14 +1,14 @@
 SPECIFICATION MCSpec
 CONSTANTS
-  NT = 1
+  NT = 2
   NM = 1
-  UDP = FALSE
+  UDP = TRUE
   CMIN = 2
   BO = 3
-  IVALS <- IvFull
+  IVALS <- IvOne
   ASIS = {}
-  CIDS = {0}
-  ENV = {"need", "complete", "flip", "expire", "stop"}
+  CIDS = {0, 7}
+  ENV = {"expire", "stop"}
 INVARIANT InvFixed
 PROPERTY Live
 CHECK_DEADLOCK FALSE
